@@ -278,8 +278,56 @@ def check_remating(acc, kind, z, seq):
     acc.outcomes[('remate', kind, len(seq))] += 1
 
 
+def check_simulated(acc, variant):
+    """The values RECORDED by a simulation equal the formulas evaluated on the recorded torques at every instant,
+    including the instants at which a self-locking chain is held (the torques keep changing there)."""
+    from gmc import sim, menu
+    J = [2.0, 'gm^2']
+    full = {'m': [1.0, 'mm'], 'b': [5.0, 'mm'], 'E': [200.0, 'GPa']}
+    els = [dict(menu.MOTOR_CUR),
+           {'k': 'Wg', 'starts': 2, 'J': J, 'beta': [10.0, 'deg'], 'alpha': [20.0, 'deg'], 'd': [10.0, 'mm']},
+           {'k': 'Ww', 'z': 30, 'J': J, 'beta': [10.0, 'deg'], 'alpha': [20.0, 'deg'], 'm': [1.0, 'mm'], 'b': [4.0, 'mm']},
+           dict({'k': 'S', 'z': 12, 'J': J}, **full), dict({'k': 'S', 'z': 30, 'J': J}, **dict(full, b=[3.0, 'mm']))]
+    links = [{'t': 'J'}, {'t': 'W', 'f': 0.3 if variant == 'locking' else 0.1}, {'t': 'J'}, {'t': 'G', 'eta': 0.9}]
+    spec = {'elements': els, 'links': links, 'init': {'theta': [0.0, 'rad'], 'w': [0.0, 'rad/s']}}
+    st = menu.stall_at_output(spec)
+    spec['load'] = ['mix', 0.2 * st, 0.0, 0.0, 1.5 * st]          # rises in time: the locking variant ends held under a changing load
+    case = {'kind': 'simulated', 'variant': variant}
+    m, info = sim.run_schedule(spec, [('run', [0.125, 'sec'], [2.5, 'sec'], [1, 1, 1, 0.6, 0, 0, 1, 1, 1, 1, 1, 1, 1, 1, 1, 1, 1, 1, 1, 1, 1], None)])
+    if info['error']:
+        acc.violation('C09/simulated/run-error', 'simulation runs', case, {'error': info['error']})
+        return
+    acc.executions += 1
+    obs = m.observe()
+    nk = len(obs['time'])
+    d_worm, beta, alpha = 0.010, math.radians(10.0), math.radians(20.0)
+    for k in range(nk):
+        acc.transitions += 1
+        acc.state(('simulated', variant, k))
+        wh, p, g = obs['el'][2], obs['el'][3], obs['el'][4]
+        Ft = ref.tangential_force(wh['driving torque'][k], 30 * 0.001)          # wheel: slave of the worm -> driving torque
+        exp = {('Ww', 'tangential force'): (wh['tangential force'][k], Ft),
+               ('Ww', 'bending stress'): (wh['bending stress'][k], ref.bending_wheel(Ft, d_worm, beta, 30, 0.004, ref.WORM_TABLE[20.0][1]))}
+        Fp = ref.tangential_force(p['load torque'][k], 12 * 0.001)            # pinion: master -> load torque
+        Fg = ref.tangential_force(g['driving torque'][k], 30 * 0.001)         # wheel gear: slave -> driving torque
+        exp[('S3', 'tangential force')] = (p['tangential force'][k], Fp)
+        exp[('S3', 'bending stress')] = (p['bending stress'][k], ref.bending_spur(Fp, 0.001, 0.005, ref.lewis(12)))
+        exp[('S3', 'contact stress')] = (p['contact stress'][k], ref.contact_stress(Fp, 0.005, 0.012, 0.030, 200e9, 200e9, alpha))
+        exp[('S4', 'tangential force')] = (g['tangential force'][k], Fg)
+        exp[('S4', 'bending stress')] = (g['bending stress'][k], ref.bending_spur(Fg, 0.001, 0.003, ref.lewis(30)))
+        exp[('S4', 'contact stress')] = (g['contact stress'][k], ref.contact_stress(Fg, 0.003, 0.030, 0.012, 200e9, 200e9, alpha))
+        held = obs['el'][0]['angular speed'][k] == 0.0 and k > 0
+        for (el, var), (got, want) in exp.items():
+            if got is None or not si.close(got, want, 1e-9, 1e-12):
+                acc.violation(f'C09/simulated/{var}/{"held" if held else "moving"}',
+                              'the recorded force / stress equals the documented formula on the recorded torques at every instant', case,
+                              {'instant': k, 'element': el, 'got': got, 'ref': want})
+                return
+    acc.outcomes[('simulated', variant, sum(1 for k in range(1, nk) if obs['el'][0]['angular speed'][k] == 0.0))] += 1
+
+
 def shards(tier):
-    out = []
+    out = [{'mode': 'simulated', 'variant': v} for v in ('locking', 'free')]
     for lo in range(10, 521, 32):
         out.append({'mode': 'spur', 'z': [lo, min(lo + 32, 521)]})
         out.append({'mode': 'helical', 'z': [lo, min(lo + 32, 521)]})
@@ -305,7 +353,9 @@ def run_shard(shard, tier):
             for beta in helixes:
                 for role in ('master', 'slave'):
                     for Tsign in (1, -1):
-                        check_pair(acc, kind, z, 10 + (z * 7) % 90, role, Tsign, *full, MODS[0], WIDTHS[1], MODULI[1], beta=beta)
+                        # the mate's face width is larger for even, smaller for odd teeth numbers
+                        bm = WIDTHS[1] if z % 2 == 0 else [2.0, 'mm']
+                        check_pair(acc, kind, z, 10 + (z * 7) % 90, role, Tsign, *full, MODS[0], bm, MODULI[1], beta=beta)
                         acc.nstates += 1
         acc.sample({'kind': mode, 'teeth': shard['z'], 'helix': helixes[-1], 'roles': ['master', 'slave'], 'data': 'module, face width, elastic modulus on both'})
     elif mode == 'subsets':
@@ -335,6 +385,9 @@ def run_shard(shard, tier):
                                 check_pair(acc, kind, z, 44, role, -1, m, b, E, mm, WIDTHS[2], Em, beta=beta, tag='params')
                                 acc.nstates += 1
         acc.sample({'kind': kind, 'mode': 'modules x face widths x moduli in mixed units'})
+    elif mode == 'simulated':
+        check_simulated(acc, shard['variant'])
+        acc.sample({'mode': 'recorded values of a simulation vs formulas on the recorded torques', 'variant': shard['variant']})
     elif mode == 'remate':
         steps = [(mi, role) for mi in range(len(MATES)) for role in ('master', 'slave')]
         depth = 2 if tier == 'quick' else 3
@@ -371,6 +424,8 @@ def replay(case):
     if case.get('kind') == 'pair':
         check_pair(acc, case['gk'], case['z'], case['zm'], case['role'], case['Tsign'], case['m'], case['b'], case['E'],
                    case['mm'], case['bm'], case['Em'], beta=case['beta'])
+    elif case.get('kind') == 'simulated':
+        check_simulated(acc, case['variant'])
     elif case.get('kind') == 'remate':
         check_remating(acc, case['gk'], case['z'], [tuple(x) for x in case['seq']])
     elif case.get('kind') == 'wheel':
